@@ -395,8 +395,10 @@ class SInt:
                 small = SInt(zint(small), 0, 1)
             if isinstance(big, SBool):
                 big = SInt(zint(big), 0, 1)
-            if small.hi - small.lo > 64:
-                raise ShimUnsupported('symbolic*symbolic over a large domain')
+            if small.hi - small.lo > 256:
+                # nonlinear integer arithmetic: z3 may answer unknown (then the path is inconclusive, never a verdict)
+                c = [s.lo * b[1], s.lo * b[2], s.hi * b[1], s.hi * b[2]]
+                return SInt.mk(s.e * b[0], min(c), max(c))
             e = z3.IntVal(0)
             for v in range(small.lo, small.hi + 1):
                 e = z3.If(small.e == v, v * big.e, e)
@@ -517,6 +519,75 @@ class SInt:
 
     def __repr__(s):
         return f'SInt({s.e}, {s.lo}, {s.hi})'
+
+
+class SStr:
+    """a symbolic string (z3 String term) of bounded length: concatenation, equality, length"""
+
+    def __init__(self, e, maxlen):
+        self.e = e
+        self.maxlen = maxlen
+
+    @staticmethod
+    def z(o):
+        if isinstance(o, SStr):
+            return o.e, o.maxlen
+        if isinstance(o, str):
+            return z3.StringVal(o), len(o)
+        return None
+
+    def __add__(s, o):
+        b = SStr.z(o)
+        if b is None:
+            return NotImplemented
+        return SStr(z3.Concat(s.e, b[0]), s.maxlen + b[1])
+
+    def __radd__(s, o):
+        b = SStr.z(o)
+        if b is None:
+            return NotImplemented
+        return SStr(z3.Concat(b[0], s.e), s.maxlen + b[1])
+
+    def __eq__(s, o):
+        b = SStr.z(o)
+        return False if b is None else mkbool(s.e == b[0])
+
+    def __ne__(s, o):
+        b = SStr.z(o)
+        return True if b is None else mkbool(s.e != b[0])
+
+    __hash__ = None
+
+    def symlen(s):
+        return SInt.mk(z3.Length(s.e), 0, s.maxlen)
+
+    def encode(s, *a):
+        return s
+
+    def decode(s, *a):
+        return s
+
+    def __symstr__(s):
+        return s
+
+    def __bool__(s):
+        return CTX.decide(z3.Length(s.e) > 0)
+
+    def __repr__(s):
+        return f'SStr({s.e})'
+
+
+def _sint_symstr(s):
+    """str(n) for a small-range symbolic integer as an If-chain over string constants (no int-to-string theory needed)"""
+    if s.hi - s.lo > 128:
+        raise ShimUnsupported('str() of a symbolic integer with a wide range')
+    e = z3.StringVal(str(s.hi))
+    for v in range(s.hi - 1, s.lo - 1, -1):
+        e = z3.If(s.e == v, z3.StringVal(str(v)), e)
+    return SStr(e, max(len(str(s.lo)), len(str(s.hi))))
+
+
+SInt.__symstr__ = _sint_symstr
 
 
 def sint(name, lo, hi, ctx=None):
